@@ -105,6 +105,10 @@ class VConfig:
             for t in range(1, T):
                 self.Ns[t] = int(rng.integers(4, self.N + 1))
                 self.frames[t] = self.frames[t][: self.Ns[t]]
+            if recipe.get("grow") and T > 1:
+                # the first frame is the small one
+                self.Ns[0] = max(4, self.N // 2)
+                self.frames[0] = self.frames[0][: self.Ns[0]]
         if recipe.get("mem") == "f32":
             # stored in single precision (what the HOOMD converters hand over): the recorded
             # coordinates *are* the rounded ones, for the library and for the reference alike
@@ -415,7 +419,7 @@ class World(WorldBase):
                    "origin": rng.choice(["any", "any", "centred", "zero", "int-sum-zero", "far"]),
                    "shape": rng.choice(["cube", "cube", "cube", "slab"]),
                    "layout": rng.choice(["random", "lattice"]), "boxes": rng.choice(["const", "const", "vary", "creep", "cycle"]),
-                   "nvary": rng.random() < 0.25,
+                   "nvary": rng.random() < 0.25, "grow": rng.random() < 0.4,
                    "mem": rng.choice(["C", "C", "C", "F", "strided", "f32"]),
                    "subseed": rng.randrange(1 << 40)}
             if huge:
